@@ -22,7 +22,7 @@ RULE = ("two modes. ENUMERATED: for each of N fixed systems (quick 6, thorough 2
         "(schedule signature, event-log digest). Exhaustive over tapes of length L for the chosen systems, not over systems")
 ASSUMPTIONS = wa.ASSUMPTIONS
 REAL_VS_STUB = wa.REAL_VS_STUB
-PROBES = wa.PROBES + ["second_run_system_on_complete_system", "large_system_second_tree", "interior_kept_residues", "start_option", "cycles_option", "supplied_and_generated_in_one_system", "enumerated_step_tape", "enumerated_attempt_tape",
+PROBES = wa.PROBES + ["ligands_built_with_their_hosts", "second_run_system_on_complete_system", "large_system_second_tree", "interior_kept_residues", "start_option", "cycles_option", "supplied_and_generated_in_one_system", "enumerated_step_tape", "enumerated_attempt_tape",
                       "enumerated_ternary_step_tape", "enumerated_start_tape"]
 SYS_PROFILE = {"shapes": ["linear", "linear", "star", "comb", "ring", "tree"], "maxres": 8, "max_molecules": 4,
                "max_count": 2, "n_entries": (1, 2), "box_modes": ["cubic", "noncubic"], "vsites": False,
@@ -84,6 +84,14 @@ def gen_job(verif_seed, tier, index):
             job["opts"]["cycle_tol"] = g.choice([0.0, 0.2])
         if job.get("coord_text") is None and g.random() < 0.3:
             jobgen.add_start(job, g)
+        if job.get("coord_text") is None and not job["opts"].get("start") and g.random() < 0.06 \
+                and jobgen.prepare_ligands(job, g):
+            # -lig without any input structure: hosts (sometimes rings named in -cycles) and ligands are all built
+            job["opts"].setdefault("box", [8.0, 8.0, 8.0]) if "density" not in job["opts"] else None
+            if jobgen.finish_ligands(job, g):
+                job["ligands_all_built"] = True
+            else:
+                job["opts"].pop("cycles", None) if job.get("ligand_on_cyclic_host") else None
         if g.random() < 0.1:
             job["rerun_build"] = True        # BuildSystem.run_system called a second time on the complete system
         job["mode"] = "sampled"
@@ -127,6 +135,8 @@ def _tag(job, res):
         res["probes"]["enumerated_start_tape"] = 1
     if job.get("large_system"):
         res["probes"]["large_system_second_tree"] = 1
+    if job.get("ligands_all_built"):
+        res["probes"]["ligands_built_with_their_hosts"] = 1
     if job.get("interior_kept"):
         res["probes"]["interior_kept_residues"] = 1
     if job["opts"].get("start"):
